@@ -494,6 +494,30 @@ func tailCallsFamily(budget time.Duration) mc.Family {
 		{"/e { exit } def { { e } exec 1 } loop 6", "6"},
 		{"3 { { exit } loop 7 } repeat", "7 7 7"},
 	}
+	// a name bound to the null object (or to a file) is bound: it hides older
+	// definitions further down the dictionary stack like any other value
+	nul := "-null/file-"
+	progs = append(progs,
+		prog{"/v 1 def 1 dict begin /v 1 array 0 get def v end", nul},
+		prog{"/v 1 def 1 dict begin /v 1 array 0 get def /v load end", nul},
+		prog{"/v 1 def 1 dict begin /v 1 array 0 get def { v } exec end v", nul + " 1"},
+		prog{"/v 1 def 1 dict begin /v 1 array 0 get def { v } bind exec end", nul},
+		prog{"/v 1 array 0 get def v /v load", nul + " " + nul},
+		prog{"/f currentfile def f", nul},
+		prog{"/v 1 def 2 dict begin /v 2 def 1 dict begin /v 1 array 0 get def 0 1 2 { pop v } for end v end v", nul + " " + nul + " " + nul + " 2 1"},
+	)
+	// a procedure is an array that is read while it runs: an element stored
+	// into it before execution gets there is the element that is executed,
+	// also when it is the last one
+	progs = append(progs,
+		prog{"/p { /p load 6 99 put 1 2 } def p", "1 99"},
+		prog{"/p { /p load 5 77 put 1 2 } def p", "77 2"},
+		prog{"/p { /p load 6 99 put 1 2 } def p p", "1 99 1 99"},
+		prog{"/b { pop /b load 6 (x) put (y) } def 1 1 2 /b load for", "(x) (x)"},
+		prog{"/p { /p load 6 { 5 } put 1 2 } def p", "1 {5}"},
+		prog{"/p { /p load 8 /q load put 1 2 q } def /q { 3 } def /q { 4 } def p", "1 2 {4}"},
+		prog{"/p { /p load 8 /add load put 1 2 3 } def p", "3"},
+	)
 	for _, h := range handlers {
 		for _, l := range loops {
 			progs = append(progs, prog{h + l.text, l.want})
@@ -501,7 +525,7 @@ func tailCallsFamily(budget time.Duration) mc.Family {
 	}
 	return mc.Family{
 		Name: "tail-calls-and-exit-handlers", Items: len(progs), Budget: budget,
-		Rule: fmt.Sprintf("%d programs with a closed-form result: loops made of a procedure that calls itself (directly, through a second procedure, through a helper that returns first) as the last element of its body, for 1..5000 rounds (such a call replaces the finished body and does not nest); names that stand last in a body called 3n times; recursion through if / ifelse for <= 45 rounds; %d loops left by exit (every loop operator, exit inside if / ifelse / exec / a named procedure, nested loops) x %d sets of handlers installed in errordict by the program (none; invalidexit; invalidexit + others; handleerror; a handler that itself exits): exit is not an error and never reaches a handler; non-trivial = all", len(progs), len(loops), len(handlers)),
+		Rule: fmt.Sprintf("%d programs with a closed-form result: loops made of a procedure that calls itself (directly, through a second procedure, through a helper that returns first) as the last element of its body, for 1..5000 rounds (such a call replaces the finished body and does not nest); names that stand last in a body called 3n times; recursion through if / ifelse for <= 45 rounds; %d loops left by exit (every loop operator, exit inside if / ifelse / exec / a named procedure, nested loops) x %d sets of handlers installed in errordict by the program (none; invalidexit; invalidexit + others; handleerror; a handler that itself exits): exit is not an error and never reaches a handler; 7 programs in which a name is bound to the null object or to a file and hides an older definition; 7 procedures that store into their own body ahead of the point of execution (the last element included); non-trivial = all", len(progs), len(loops), len(handlers)),
 		Body: func(c *mc.Ctx, item int) mc.Verdict {
 			p := progs[item]
 			intp := postscript.NewInterpreter()
